@@ -9,15 +9,20 @@ PROPS_FILES = ["Asynkit/Props/C01.lean", "Asynkit/Lemmas/GenEqC01.lean", "Asynki
 DRIVERS = ["Eager"]
 THEOREM = "Asynkit.C01.eager_equiv_task"
 TRUSTED = [
-    "Lean 4.33 kernel; axioms ⊆ {propext, Classical.choice, Quot.sound} (audited per theorem each run)",
-    "hand-written model Asynkit/Model/EagerKernel.lean of CoroStart._start/__await__/as_future, "
-    "_Continuation and coro_eager (src/asynkit/coroutine.py), tied to the code by the snapshot-by-snapshot "
-    "correspondence of this run (lean/Drivers/Eager.lean)",
-    "MODELLED, NOT VERIFIED: asyncio.Task.__step/__wakeup/cancel, Future state + callbacks + the "
-    "_asyncio_future_blocking handshake, C FutureIter (`await fut`), CPython coroutine objects — validated "
-    "by the plain-Task stream (modes P/PS) of the same correspondence against the running interpreter (3.12.1)",
-    "Asynkit/Model/EagerProg.lean (interpreter of the harness's body language) is used by the driver and "
-    "the non-vacuity examples only; theorems quantify over every VBody",
+    'Lean 4.33 kernel; axioms ⊆ {propext, Classical.choice, Quot.sound} (audited per theorem each run)',
+    'translated, not trusted: CoroStart (_start, done, result, as_future, close, throw, __await__ segment by '
+    'segment), _Continuation.send/throw, coro_eager, func_eager, eager, eager_ctx and tools.cancelling are '
+    're-translated from the source on every run (translator/corostart2lean.py -> Gen/CoroStart.lean) and proved '
+    "equal to the model's eagerRun / contResume / cancelling transitions (Lemmas/GenEqC01.lean, 15 theorems) and "
+    "to the protocol model's CoroStart (Lemmas/GenEqC01W.lean, 15 theorems)",
+    'hand-written and tied only by the snapshot-by-snapshot correspondence of this run (lean/Drivers/Eager.lean):'
+    ' the asyncio half of Asynkit/Model/EagerKernel.lean (Task, Future, ready queue) and the reading of the '
+    "generated code's runtime record `Rt` (coro.send/throw/close, future flags, create_task) as that kernel",
+    'MODELLED, NOT VERIFIED: asyncio.Task.__step/__wakeup/cancel, Future state + callbacks + the '
+    '_asyncio_future_blocking handshake, C FutureIter (`await fut`), CPython coroutine objects — validated by the'
+    ' plain-Task stream (modes P/PS) of the same correspondence against the running interpreter (3.12.1)',
+    "Asynkit/Model/EagerProg.lean (interpreter of the harness's body language) is used by the driver and the "
+    'non-vacuity examples only; theorems quantify over every VBody',
 ]
 ASSUMPTIONS = [
     "bodies do not inspect asyncio.current_task(); they never raise real KeyboardInterrupt/SystemExit "
